@@ -311,6 +311,8 @@ def menu(name: str, **kw: Any) -> Scenario:
         "G9": ("leaves..tutorial1,leaves..tutorial2", "net1 net2"),
         "G4g": ("leaves..tutorial_get..implicit_both,leaves..tutorial_finale", "net1"),
         "G4h": ("leaves..tutorial_get..implicit_both,leaves..tutorial_finale", "net1 net2"),
+        "G4j": ("leaves..tutorial_finale,leaves..tutorial_get..implicit_both", "net1"),
+        "G4k": ("leaves..tutorial_finale,leaves..tutorial_get..implicit_both", "net1 net2"),
         "G10": ("normal..tutorial_gui..client_noop,leaves..tutorial_get..explicit_noop", "net1 net2"),
         "G0": ("normal..tutorial1", "net0"),
     }
